@@ -1274,6 +1274,63 @@ def run_tok(ctx):
                "are re-verified on every run")
 
 
+TRAIN_FNS = ("UnkHandler::compatible_unk_index", "trainer::Trainer::build_lattice")
+
+
+def _train_scan(ctx):
+    crate = ctx.facts("A").lib
+    E = Effects(crate)
+    fns = {p: (p,) for p, f in crate.fns.items() if f.body and any(x in p for x in TRAIN_FNS)}
+    return crate, E, fns, [(s, discharge(crate, E, s)) for s in enumerate_sites(crate, E, fns)]
+
+
+def train_sites(ctx):
+    return [s.key for s, r in _train_scan(ctx)[3] if r is None]
+
+
+def run_train(ctx):
+    """TRAINPANIC (C19): the panic-site audit applied to the functions that turn a parsed corpus
+    into a training lattice (Trainer::build_lattice and its closures, compatible_unk_index). The
+    table reasons assume the corpus is tokenizer output (non-empty surfaces that concatenate to
+    the sentence); a new index / unwrap / arithmetic site on this path is reported."""
+    crate, E, fns, scanned = _train_scan(ctx)
+    ctx.floor("TRAINPANIC", "functions between the corpus and the training lattice", len(fns), 5)
+    ctx.floor("TRAINPANIC", "potential panic / wrap sites", len(scanned), 20)
+    patterns = [p for p in load_table().get("patterns", []) if p.get("scope") == "TRAIN"]
+    ctx.floor("TRAINPANIC", "table rules", len(patterns), 10)
+    guard_cache = {}
+    for s, r in scanned:
+        if r is not None:
+            ctx.ob("TRAINPANIC", s.key, True, s.loc, "%s in %s: discharged by %s (%s)" % (
+                s.desc, s.fn.split("::")[-1], r[0], r[1]))
+            continue
+        e = None
+        for p in patterns:
+            if p["fn"] in s.fn and re.search(p["rx"], s.key):
+                e = p
+                break
+        if e is None:
+            ctx.ob("TRAINPANIC", s.key, False, s.loc,
+                   "potential panic `%s` (%s) in %s between the corpus and the training lattice is "
+                   "neither discharged structurally nor justified in spec/panic_table.json: feeding "
+                   "tokenizer output to train may panic here" % (s.desc, s.kind, s.fn))
+            continue
+        ok, gtxt = True, ""
+        if e.get("guard"):
+            gk = json.dumps(e["guard"], sort_keys=True)
+            if gk not in guard_cache:
+                guard_cache[gk] = check_guard(ctx, crate, E, e["guard"])
+            ok, gtxt = guard_cache[gk]
+        ctx.ob("TRAINPANIC", s.key, ok, s.loc,
+               "%s in %s: %s%s" % (s.desc, s.fn.split("::")[-1], e["reason"],
+                                   (" [guard: %s]" % gtxt[:120]) if gtxt else "") if ok else
+               "%s in %s is only safe because of a guard that no longer holds: %s" % (
+                   s.desc, s.fn.split("::")[-1], gtxt))
+    ctx.assume("TRAINPANIC assumes the corpus is tokenizer output: every token has a non-empty "
+               "surface and the surfaces concatenate to the sentence (a hand-written corpus with an "
+               "empty surface can still make build_lattice index past the sentence)")
+
+
 def run_costsum(ctx):
     """COSTSUM (C02): every overflow-checked i32 addition of path / connection / word costs on
     the tokenization path. total_cost is the accumulated cost only while these sums stay inside
